@@ -600,6 +600,7 @@ def scheme_families(rep, tier="quick"):
 def eko_basis_standin(rep):
     _eko_basis_concrete_grids(rep)
     eko_basis_symbolic_grid(rep)
+    eko_window_lemma(rep)
 
 
 def _eko_basis_concrete_grids(rep):
@@ -840,6 +841,80 @@ def eko_basis_symbolic_grid(rep, tier="quick"):
         I2.Area._compute_coefs = orig_cc
     if not caught:
         o = Ob(f"{rep.pid}/A-eko[symbolic grid]/canary: a scaled basis polynomial must break the partition of unity", "bounded", UNDECIDED, "engine", 0, "the tampered basis was accepted: the obligation above decides nothing")
+        o.bounded = True
+        rep.add(o)
+
+
+def eko_window_lemma(rep):
+    """The interpolation window of EVERY area of EVERY grid (unbounded in the number of nodes): the body of
+    the block-construction loop of eko's InterpolatorDispatcher.__init__ is extracted mechanically from the
+    installed source on every run (ast: the `for i in range(len(xgrid) - 1)` loop; the only rewriting is
+    `len(xgrid)` -> the symbol n and `list_of_blocks.append(b)` -> return b; nothing is dropped), executed on
+    symbolic INTEGERS i and n (0 <= i <= n - 2, n >= degree + 1; integer sort in z3 -- on the reals the clamping
+    test `kmax >= n` would leave kmax in (n - 1, n)) for each concrete degree 1..6 with po2 computed
+    by the code preceding the loop, and z3 proves on every path: 0 <= kmin <= i, i + 1 <= kmax <= n - 1,
+    kmax - kmin = degree -- the window has degree + 1 nodes, contains both ends of its area and lies inside
+    the grid.  With it the symbolic-grid identities (which involve only the nodes of one window) hold for grids
+    of any length; what stays assumed is that Area reads the grid only inside its window (read by eye:
+    Area._reference_indices, xgrid[poly_number], xgrid[lower_index], xgrid[lower_index + 1])."""
+    import ast
+    import inspect
+    import textwrap
+
+    from eko import interpolation as I
+    from pvc.core import Ob, PROVED, REFUTED, UNDECIDED
+    from pvc.explore import explore
+    from pvc.smt import prove
+    from pvc.sym import And
+
+    try:
+        src = textwrap.dedent(inspect.getsource(I.InterpolatorDispatcher.__init__))
+        fn = ast.parse(src).body[0]
+        loop = [n_ for n_ in ast.walk(fn) if isinstance(n_, ast.For) and "list_of_blocks.append" in ast.unparse(n_)]
+        assert len(loop) == 1 and ast.unparse(loop[0].iter) == "range(len(xgrid) - 1)", "block-construction loop not found in the expected form"
+        body = ast.unparse(loop[0].body)
+        assert body.count("list_of_blocks.append(b)") == 1 and "xgrid" not in body.replace("len(xgrid)", ""), "loop body uses the grid in an unexpected way"
+        text = "def _window(i, n, polynomial_degree, po2):\n" + textwrap.indent(body.replace("len(xgrid)", "n").replace("list_of_blocks.append(b)", "return b"), "    ")
+        # the statements between `list_of_blocks = []` and the loop compute po2 from the degree
+        k0 = next(k for k, st_ in enumerate(fn.body) if ast.unparse(st_).startswith("list_of_blocks = "))
+        k1 = fn.body.index(loop[0])
+        pre_src = "\n".join(ast.unparse(st_) for st_ in fn.body[k0 + 1:k1])
+        assert "po2" in pre_src and "xgrid" not in pre_src
+        ns = {}
+        exec(compile(text, "<eko block loop>", "exec"), ns)  # noqa: S102
+    except Exception as e:  # noqa
+        o = Ob(f"{rep.pid}/A-eko[window lemma]/extraction", "bounded", UNDECIDED, "engine", 0, f"{type(e).__name__}: {e}")
+        o.bounded = True
+        rep.add(o)
+        return
+    from pvc import smt as _smt
+
+    _smt.INT_VARS.update({"i_area", "n_nodes"})  # integer-valued symbols: `kmax >= n` and `kmax > n - 1` differ on the reals
+    i, n = R.var("i_area"), R.var("n_nodes")
+    for deg in (1, 2, 3, 4, 5, 6):
+        rep.cases += 1
+        env = {"polynomial_degree": deg}
+        exec(pre_src, env)  # noqa: S102  (po2 = degree // 2, minus one for even degrees)
+        po2 = env["po2"]
+        pre = [i >= 0, i <= n - 2, n >= deg + 1]
+        bad, und, npaths = [], 0, 0
+        try:
+            for p in explore(lambda: ns["_window"](i, n, deg, po2), pre, max_paths=64, budget_s=30):
+                npaths += 1
+                if p.exc is not None:
+                    bad.append(f"raises {p.exc!r}")
+                    continue
+                kmin, kmax = (R.lift(v) for v in p.result)
+                st, model, _b = prove(pre + list(p.pc), And(kmin >= 0, kmin <= i, kmax >= i + 1, kmax <= n - 1, (kmax - kmin) <= deg, (kmax - kmin) >= deg), 10000)
+                if st == "refuted":
+                    bad.append(f"window ({kmin}, {kmax}) at {model}")
+                elif st != "proved":
+                    und += 1
+            status = PROVED if npaths and not bad and not und else (REFUTED if bad else UNDECIDED)
+            detail = f"{npaths} paths (interior, clamped left, clamped right); po2 = {po2}" + (f"; {bad[:2]}" if bad else "")
+        except Exception as e:  # noqa
+            status, detail = UNDECIDED, f"{type(e).__name__}: {e}"
+        o = Ob(f"{rep.pid}/A-eko[window lemma]/degree {deg}: for every grid length n and every area i the window (kmin, kmax) has degree+1 nodes, contains i and i+1, lies in 0..n-1", "bounded", status, "z3", 0, detail)
         o.bounded = True
         rep.add(o)
 
